@@ -78,3 +78,14 @@ pub fn verif_builder_outputs(tx_builder: &crate::TransactionBuilder) -> crate::T
 pub fn verif_builder_inputs(tx_builder: &crate::TransactionBuilder) -> crate::TransactionInputs {
     tx_builder.inputs.inputs()
 }
+
+/// The collateral inputs, collateral return and total collateral currently held by a transaction builder.
+pub fn verif_builder_collateral(
+    tx_builder: &crate::TransactionBuilder,
+) -> (crate::TransactionInputs, Option<crate::TransactionOutput>, Option<crate::Coin>) {
+    (
+        tx_builder.collateral.inputs(),
+        tx_builder.collateral_return.clone(),
+        tx_builder.total_collateral.clone(),
+    )
+}
